@@ -4,6 +4,13 @@
 
 /// Gets the unix timestamp as a duration
 pub fn unix_timestamp() -> std::time::Duration {
+    #[cfg(lsm_verif)]
+    {
+        if let Some(override_val) = crate::verif::clock_override() {
+            return override_val;
+        }
+    }
+
     #[cfg(test)]
     #[allow(clippy::significant_drop_in_scrutinee, clippy::expect_used)]
     {
